@@ -431,14 +431,25 @@ func c03Signers(r *core.Run, p *core.Program) {
 				continue
 			}
 			// S > HalfOrder  <=>  Cmp == 1 / Cmp > 0 / Cmp >= 1
-			high := (rel == token.EQL && k.Int64() == 1) || (rel == token.GTR && k.Sign() == 0) || (rel == token.GEQ && k.Int64() == 1)
-			if !high {
+			_ = rel
+			// the edge on which S > HalfOrder holds (Cmp == 1 / > 0 / >= 1, or the complement on the other edge)
+			tb := an.EdgeWhere(iff, func(_, yy ssa.Value, rl token.Token) bool {
+				kk, okk := an.ConstOf(yy)
+				return okk && ((rl == token.EQL && kk.Int64() == 1) || (rl == token.GTR && kk.Sign() == 0) || (rl == token.GEQ && kk.Int64() == 1))
+			})
+			_ = k
+			if tb == nil {
 				continue
 			}
-			// on the true edge: S = Order - S
-			tb := b.Succs[0]
+			// on that edge: S = Order - S, in the successor or in blocks only it leads to
 			neg := false
-			for _, ins := range tb.Instrs {
+			var region []ssa.Instruction
+			for _, bb := range sg.Blocks {
+				if bb == tb || tb.Dominates(bb) {
+					region = append(region, bb.Instrs...)
+				}
+			}
+			for _, ins := range region {
 				if c, ok := ins.(*ssa.Call); ok && an.IsCall(c, "(*math/big.Int).Sub") {
 					a := c.Call.Args
 					if len(a) == 3 && an.HasAll(an.Atoms(a[0]), "field:"+secp+".Signature.S") && an.HasAll(an.Atoms(a[1]), "global:"+secp+".TheCurve", "~.Order") && an.HasAll(an.Atoms(a[2]), "field:"+secp+".Signature.S") {
